@@ -38,6 +38,7 @@ func runC01(c *Ctx, r *Report) {
 	c01R2(c, r, "C01.R2")
 	c01R3(c, r, "C01.R3")
 	c01R4(c, r, "C01.R4")
+	c01TeeKeepsPipeOpen(c, r, "C01.R17")
 	c01R5(c, r, "C01.R5")
 	c01R6(c, r, "C01.R6")
 	c01R7(c, r, "C01.R7")
